@@ -8,8 +8,9 @@
   O (on the implementation's outputs only): no run panics; "succeeds on one layout / path ⇒ succeeds on every other";
      every run gives the same answer up to the freedom `Spec.sameAnswer` leaves.  K = O (no executable reference: the
      comparison is between configurations; `Spec.run` is evaluated only as a tag when the tables are small).
-  Attribution: C04-F1 (dense aggregation refuses NULL group keys, DESIGN A.5) — iff every failing run is a Parquet run that
-     failed with exactly the message `dense agg: null group keys unsupported`, and all answering runs agree.
+  Attribution: none.  C04-F1 (dense aggregation refused NULL group keys, DESIGN A.5) is fixed (4efd9ed) and suppresses nothing;
+     a failing case in which exactly the Parquet runs fail with `dense agg: null group keys unsupported` is tagged
+     `looks_like:C04-F1`.
 -/
 import Driver.Util
 import Driver.Sql
@@ -59,7 +60,8 @@ def handler : Driver.Handler := fun c i => do
   let denseMsg := "dense agg: null group keys unsupported"
   let f1 := ofail.isSome && panics.isEmpty && !errs.isEmpty && differing.isEmpty && !oks.isEmpty
             && errs.all (fun (k, _) => isParquet k && (match msgs.find? (·.1 == k) with | some (_, m) => containsSub m denseMsg | none => false))
-  let attr : Option String := if f1 then some "C04-F1" else none
+  -- C04-F1 is fixed (4efd9ed) and suppresses nothing; its shape is only tagged
+  let attr : Option String := none
   let small := (cs.tables.map List.length).sum ≤ 150
   let specTag : List String :=
     if !small || cs.engineDefined then ["spec:skipped"] else
@@ -69,11 +71,20 @@ def handler : Driver.Handler := fun c i => do
     | _, _ => ["spec:unjudged"]
   let variants := (runs.map fun (k, _) => s!"variant:{variantOf k}").eraseDups
   let diffTags := ((differing ++ errs.map (·.1)).map fun k => s!"diff:{layoutOf k}@{variantOf k}").eraseDups
+                  ++ (if f1 then ["looks_like:C04-F1"] else [])
+  -- evidence only: which scan / aggregation operators the planner chose over the Parquet layout, per variant
+  let pathTags : List String := match i.getObjVal? "ops" with
+    | .ok (.obj okv) => (okv.toList.flatMap fun (v, names) => match names.getArr? with
+        | .ok a => a.toList.filterMap fun n => match n.getStr? with
+          | .ok nm => if nm == "StreamingParquetScan" || nm == "MorselAggregate" || nm == "MemoryTableScan" then some s!"path:{v}:{nm}" else none
+          | .error _ => none
+        | .error _ => []).eraseDups
+    | _ => []
   let nonEmpty := oks.any fun (_, t) => !t.isEmpty
   let hasPq := oks.any fun (k, _) => isParquet k
   let tags := ["sql", Driver.SQL.topShape cs.plan, if errs.isEmpty then "sql:answered" else "sql:err"]
               ++ (if (Driver.getNat c "files").toOption.getD 1 ≥ 2 then ["files:multi"] else ["files:one"])
-              ++ [s!"rg:{(Driver.getNat c "rg").toOption.getD 0}"] ++ variants ++ specTag ++ cs.tags ++ diffTags
+              ++ [s!"rg:{(Driver.getNat c "rg").toOption.getD 0}"] ++ variants ++ pathTags ++ specTag ++ cs.tags ++ diffTags
               ++ (if nonEmpty then [] else ["empty_result"])
   pure { model := Json.null, k := ofail.isNone, oracle := ofail, nt := oks.length ≥ 2 && hasPq && nonEmpty, tags := tags, attr := attr }
 
